@@ -562,6 +562,9 @@ def run(chk) -> None:
     fold = Folder(repo, AN).fold
     loop = kd_loop(chk, fi)
     r = fold_call_arg(chk, fi, loop.iter)
+    from checks.c03 import check_exact_query
+
+    check_exact_query(chk, fi, loop.iter, "stack-radius")
     chk.expect(r == c["stacking_max_distance"], "stack-radius", fi.site(loop), f"centroid pairs come from query_pairs({r})", f"stacking search radius folds to {r}, the statement says {c['stacking_max_distance']} A", K(fi, "radius"), expected=c["stacking_max_distance"], found=r)
 
     from checks import c03e, c04e
